@@ -548,7 +548,7 @@ class UnicodeData:
             # Define the special block "No_Block", that contains all the other codepoints not
             # belonging to a defined block (https://www.unicode.org/Public/UNIDATA/Blocks.txt)
             no_block = UnicodeSubset([(0, maxunicode + 1)])
-            for v in self._blocks.values():
+            for v in list(self._blocks.values()):  # a snapshot: other threads can add NoBlock
                 no_block -= v
             self._blocks['NoBlock'] = no_block
             self._unicode_blocks['NOBLOCK'] = 'NoBlock'
